@@ -86,6 +86,17 @@ CLAIMED = {
         "technique": "Lean 4 proof about the instrumented engine model + call-log differential correspondence",
         "design_ref": "DESIGN.md §6 C20",
     },
+    "C13": {
+        "text": "Lean 4 theorems (Props/C13.lean) prove for every input string, every non-empty list of positive widths and each of the five line-delimiter "
+                "settings that the transcription of fixed_rows (with its one-character push-back) returns rows iff the input is in the language of aligned "
+                "records interleaved with permitted delimiters (C13_sound, C13_complete), fails exactly outside it (C13_no_repair), every item has its width "
+                "(C13_aligned) and the reading is unambiguous (C13_unique). Tied to /repo by exhaustive enumeration of all strings up to length 5 (quick) / 8 "
+                "(thorough) over {a,b,CR,LF} x 39 width lists x 5 settings plus single-character mutations of longer files: impl vs model vs grammar.",
+        "note": "Trusted: Lean kernel; Fixed.fixedRows as transcription of rowio.fixed_rows on text streams opened with newline='' (correspondence); byte decoding "
+                "and file handling are not modelled.",
+        "technique": "Lean 4 proof (refinement of the reader to a grammar, soundness + completeness) + bounded-exhaustive correspondence",
+        "design_ref": "DESIGN.md §6 C13",
+    },
 }
 
 NOT_YET = {
